@@ -321,4 +321,53 @@ example : (match useFastStorage nvLrs 2 100 with
     | .ok r => some (r.entered, r.st.evicted, r.st.kept, r.st.maxU, r.fixed)
     | .error _ => none) = some (true, [3, 1], [2], [40, 90, 90, 90], [40, 40, 40, 40]) := by decide
 
+/-! ## Stripe input and weight buffers -/
+
+/-- **stripe_input_matches_rolling_hypothesis.**  For a striped operator without upscaling, the height of `stripe_input` that
+    `create_scheduler_info` stores — the `consumer_stripe_input.height` of `rolling_buffer_shape` — is
+    `min((q - 1)·stride + k_dil, H)` for a stripe of `q` rows: exactly the hypothesis `hc` of C10's `rolling_sufficient`. -/
+theorem stripe_input_matches_rolling_hypothesis (ofmShape stripe ifmShape : Shape4) (ifm2 : Option Shape4) (sy sx areaH areaW : Int)
+    (hne : stripe ≠ ofmShape) (hq : 1 ≤ stripe.h) (hs : 1 ≤ sy) (hk : 1 ≤ areaH) :
+    ((stripeInputs ofmShape stripe ifmShape ifm2 sy sx areaH areaW 1 false).1.h : Int) =
+      min (((stripe.h : Int) - 1) * sy + areaH) ifmShape.h := by
+  have hb : (stripe != ofmShape) = true := by simpa using hne
+  simp only [stripeInputs, hb, ↓reduceIte, Shape4.withHW, Box.getIfmAreaRequired, Box.requiredSize, Bool.false_eq_true]
+  have hpos : 0 ≤ ((stripe.h : Int) - 1) * sy := Int.mul_nonneg (by omega) (by omega)
+  have e : (((stripe.h : Int) - 1) * sy + areaH + 0 + 1 - 1) / 1 = ((stripe.h : Int) - 1) * sy + areaH := by
+    rw [Int.ediv_one]; omega
+  rw [e]
+  omega
+
+/-- **weight_buffers_within_limit.**  The buffers `propose_weight_buffering` creates (one, or two when double buffering)
+    fit the buffer limit it was given; with `operatorBuffering` (`limit = staging_limit - snapshot[t]`, minus the evicted
+    feature maps when applicable): snapshot entry + weight buffers ≤ staging limit. -/
+theorem weight_buffers_within_limit (bufferLimit : Int) (bufLen db0 db1 nSlices cascade : Nat) (prevSlack : Int) (w : WeightBuffers)
+    (h : weightBufferDecision bufferLimit bufLen db0 db1 nSlices cascade prevSlack = .ok (some w)) :
+    (sumNat w.buffers : Int) ≤ bufferLimit ∧ (w.slackUsed : Int) ≤ bufferLimit := by
+  unfold weightBufferDecision at h
+  simp only at h
+  split at h
+  · next hle =>
+    split at h
+    · simp at h
+    · simp only [Except.ok.injEq, Option.some.injEq] at h
+      subst h
+      cases h2 : decide (((db0 + db1 : Nat) : Int) ≤ bufferLimit) <;> cases h3 : decide (min bufLen (max db0 db1) < bufLen)
+      all_goals simp only [Bool.and_self, Bool.and_true, Bool.and_false, Bool.false_eq_true, ↓reduceIte, sumNat, List.foldl]
+      · exact ⟨by omega, by omega⟩
+      · exact ⟨by omega, by omega⟩
+      · exact ⟨by omega, by omega⟩
+      · have hd : ((db0 + db1 : Nat) : Int) ≤ bufferLimit := by simpa using h2
+        refine ⟨by omega, ?_⟩
+        split <;> omega
+  · simp at h
+
+theorem operator_buffering_fits (snapshot : List Int) (t : Nat) (stagingLimit : Int) (evicted : Nat) :
+    (operatorBuffering snapshot t stagingLimit evicted).2 ≤ (operatorBuffering snapshot t stagingLimit evicted).1 ∧
+    snapshot.getD t 0 + (operatorBuffering snapshot t stagingLimit evicted).1 = stagingLimit := by
+  unfold operatorBuffering
+  simp only
+  refine ⟨?_, by omega⟩
+  split <;> omega
+
 end VelaVerif.Props.C12Sched
